@@ -169,6 +169,20 @@ class SchemaCheck(common.Check):
 		if self.probe:
 			case['probe'] = self.probe[0]
 		super().disagree('Layout-vs-generated-module', case, impl, model)
+		if not self.probe:
+			# the interpreter is the schema's semantics (that is what "conforming" refers to): a generated codec that answers differently on
+			# an input does not conform on that input
+			replay = {'class': case.get('class'), 'op': case.get('op'), 'implementation': impl, 'schema_prescribes': model}
+			if case.get('op') == 'ser':
+				replay['value'] = case.get('input')
+			elif case.get('op') == 'fac':
+				replay['factory'] = case.get('class')
+				replay['class'] = None
+				replay['bytes'] = case.get('input')
+			else:
+				replay['bytes'] = case.get('input')
+			self.fail(f'c15:module-differs-from-schema-semantics:{case.get("op")}',
+				f'the generated codec answers {impl[:160]} where the schema prescribes {model[:160]} ({case.get("op")} of {case.get("class")})', replay)
 
 	text_of_module = ''
 
@@ -481,6 +495,20 @@ def replay(data):
 			if fac is None or fac[0] != info.get('class'):
 				print('ORACLE factory: does not return the concrete class')
 				failing = True
+		if 'schema_prescribes' in info:
+			observed = None
+			if info.get('op') == 'ser' and 'value' in info and info.get('class'):
+				observed = c01.impl_ser(codec.to_object(net, info['class'], parse_tree(info['value'])))
+			elif info.get('op') == 'des' and info.get('class'):
+				observed = c01.impl_des(net, info['class'], bytes.fromhex(info['bytes']))[0]
+			elif info.get('op') == 'fac' and info.get('factory'):
+				observed = c01.impl_fac(net, info['factory'], bytes.fromhex(info['bytes']))[0]
+			if observed is not None:
+				print('implementation now:', observed[:600])
+				print('schema prescribes :', info['schema_prescribes'][:600])
+				if c01.coarse(observed[:600]) != c01.coarse(info['schema_prescribes'][:600]):
+					print('ORACLE conformance: the generated codec differs from the schema semantics on this input')
+					failing = True
 		print('property', 'FAILS' if failing else 'holds', 'on this input with the current tree')
 		print('replay of', info.get('op'), 'for', info.get('class'), '-- as recorded:', data.get('what'))
 		return 1 if failing else 0
